@@ -66,7 +66,7 @@ def main(argv):
     seed = int(os.environ.get('VERIF_SEED', '0'))
     from contracts import props
     cfg = props.PROPS[pid]
-    timeout_ms = 60000 if tier == 'quick' else 300000
+    timeout_ms = 150000 if tier == 'quick' else 400000      # one binary64 call-site obligation of bundle box needs ~35 s alone: 150 s keeps its verdict stable under load
     repo = Repo(root)
     all_obls, engines, extra = [], [], []
     functions = {}
